@@ -55,35 +55,67 @@ def worklist_name(w: ast.While) -> Optional[str]:
 
 def check_wrapper(pm: Any, ctx: Any, rule: str, cls_name: str, func_qual_name: str,
                   unit: str, extra_setup: Any = None) -> None:
-    """Operation class: execute(model).get_result() is exactly helper(model) (identity of the
-    token returned by the helper, for the model passed to this execute)."""
-    from .absint import AObj, AbsRaise, Interp
+    """Operation class: execute(model).get_result() is what the stand-alone function gives for the model passed to
+    THIS execute. Decided by evaluation, however the class and the function share their code (one calls the other, both
+    call a third, a base class does the plumbing): the operation is executed on a first model and then on a second,
+    different one; its result must be the function's value on the second model (same objects, same order) and not the
+    value on the first."""
+    from .absint import AObj, AbsMutation, AbsRaise, Interp
+    from .model import ModelBuilder
     ci = pm.cls(cls_name)
     helper = pm.func(func_qual_name, unit)
-    ex, gr, init = pm.method(ci, "execute"), pm.method(ci, "get_result"), pm.method(ci, "__init__")
-    if ex is None or gr is None or init is None:
-        raise AnalysisError(rule, f"anchor vanished: {cls_name}.execute/get_result/__init__")
-    it = Interp(pm)
-    it.native[helper.qual] = lambda *a, **k: ("RESULT", tuple(a) + tuple(k.values()))
-    op = AObj(cls_name)
-    from .model import ModelBuilder
-    _mb = ModelBuilder(pm)
-    m1, m2 = _mb.model(None, []), _mb.model(None, [])
+    ex, gr = pm.method(ci, "execute"), pm.method(ci, "get_result")
+    if ex is None or gr is None:
+        raise AnalysisError(rule, f"anchor vanished: {cls_name}.execute/get_result")
+    mb = ModelBuilder(pm)
+    F = mb.feature
+
+    def first() -> AObj:
+        r, a, b = F("R1"), F("a"), F("b")
+        mb.relation(r, [a], 1, 1)
+        mb.relation(r, [b], 0, 1)
+        mb.relation(a, [F("a1"), F("a2")], 1, 1)
+        return mb.model(r, [])
+
+    def second() -> AObj:
+        r, m_, o_, g = F("R2"), F("m"), F("o"), F("g")
+        mb.relation(r, [m_], 1, 1)
+        mb.relation(r, [o_], 0, 1)
+        mb.relation(m_, [g], 1, 1)
+        mb.relation(g, [F("g1"), F("g2"), F("g3")], 1, 2)
+        mb.relation(o_, [F("o1")], 1, 1)
+        mb.relation(o_, [F("o2")], 0, 1)
+        return mb.model(r, [mb.constraint("k", mb.node(mb.op("REQUIRES"), mb.node("o1"), mb.node("g1")))])
+
+    def canon(v: Any) -> Any:
+        if isinstance(v, AObj):
+            return ("obj", id(v))
+        if isinstance(v, (list, tuple)):
+            return [canon(x) for x in v]
+        if isinstance(v, (set, frozenset)):
+            return ("set", sorted(repr(canon(x)) for x in v))
+        if isinstance(v, dict):
+            return ("dict", sorted((repr(canon(k)), repr(canon(x))) for k, x in v.items()))
+        return v
+    m1, m2 = first(), second()
+    it = Interp(pm, max_depth=60)
     try:
-        it.call(init, [op])
+        want2 = canon(it.call(helper, [m2]))
+        want1 = canon(it.call(helper, [m1]))
+        op = it.eval_call_class(ci)
         if extra_setup is not None:
             extra_setup(it, op)
         it.call(ex, [op, m1])
         ret = it.call(ex, [op, m2])
-        r = it.call(gr, [op])
-    except AbsRaise as exc:
-        r, ret = ("raise", exc.what), None
-    good = isinstance(r, tuple) and r[0] == "RESULT" and any(x is m2 for x in r[1]) \
-        and not any(x is m1 for x in r[1])
-    ctx.check(good, rule, f"wrap:{cls_name}", loc(ex.unit.path, ex.node),
-              f"{cls_name}.execute(m).get_result() is {helper.name}(m) for the model of the "
-              f"current execution", bad=f"{cls_name}.execute/get_result do not return "
-              f"{helper.name}(model of this execution): {str(r)[:120]}")
+        got = canon(it.call(gr, [op]))
+    except (AbsRaise, AbsMutation) as exc:
+        ctx.violation(rule, f"wrap:{cls_name}", loc(ex.unit.path, ex.node),
+                      f"{cls_name}.execute / {helper.name} raises on a well-formed model: {exc.what}")
+        return
+    ctx.check(got == want2 and (want1 == want2 or got != want1), rule, f"wrap:{cls_name}", loc(ex.unit.path, ex.node),
+              f"{cls_name}.execute(m).get_result() is {helper.name}(m) for the model of the current execution",
+              bad=f"{cls_name}.execute/get_result do not return {helper.name}(model of this execution): "
+                  f"{'the value for the model executed before' if got == want1 else str(got)[:100]}")
     ctx.check(ret is op, rule, f"wrap-return:{cls_name}", loc(ex.unit.path, ex.node),
               "execute returns the operation object", bad="execute does not return self")
 
